@@ -89,6 +89,10 @@ def run(name, props=None):
     rc, out = sh(["git", "-C", REPO, "status", "--porcelain", "--untracked-files=no"])
     assert out.strip() == "", "/repo has uncommitted changes: " + out
     rc, out = sh(["git", "-C", REPO, "apply", os.path.join(dst, "patch.diff")])
+    if rc != 0:
+        # a later fix: commit touched neighbouring lines: fall back to a three-way merge of the same change
+        rc, out = sh(["git", "-C", REPO, "apply", "--3way", os.path.join(dst, "patch.diff")])
+        sh(["git", "-C", REPO, "reset", "-q"])
     assert rc == 0, out
     try:
         for prop in props:
